@@ -13,6 +13,7 @@ mod c11;
 mod c12;
 mod c13;
 mod c17;
+mod c18;
 mod c19;
 mod jose_util;
 mod rng;
@@ -35,6 +36,7 @@ fn run_line(prop: &str, line: &str) -> String {
     "C12" => c12::run(args),
     "C13" => c13::run(args),
     "C17" => c17::run(args),
+    "C18" => c18::run(args),
     "C19" => c19::run(args),
     _ => "bad-request".to_string(),
   });
@@ -67,6 +69,7 @@ fn main() {
         "C12" => c12::gen(thorough, seed, &mut out),
         "C13" => c13::gen(thorough, seed, &mut out),
         "C17" => c17::gen(thorough, seed, &mut out),
+        "C18" => c18::gen(thorough, seed, &mut out),
         "C19" => c19::gen(thorough, seed, &mut out),
         _ => {
           eprintln!("unknown property");
